@@ -163,7 +163,8 @@ ApplyElems(arr) == [i \in 1..Len(arr.c[1].c) |->
                       THEN <<arr.c[1].c[i].c[1], IsSpreadArg(arr.c[1].c[i])>>
                       ELSE <<UndefinedIdent, FALSE>>]      \* a hole is passed as undefined
 
-DevWhys == {"dev:D7b-nonconstant-sum-operand-omitted", "dev:D18-regexp-literal-operand-evaluated-twice"}
+DevWhys == {"dev:D7b-nonconstant-sum-operand-omitted", "dev:D18-regexp-literal-operand-evaluated-twice",
+            "dev:D20-apply-extra-arguments-handed-to-hook"}
 
 \* a regular-expression literal creates a new object each time it is evaluated
 HasRegExp(es) == \E i \in 1..Len(es) : StripParen(es[i][1]).t = "RegExpLiteral"
@@ -208,12 +209,15 @@ HookWhy(n, env) ==
          IF Len(Args(x)) >= 2 /\ ~IsSpreadArg(Args(x)[1]) /\ ~IsSpreadArg(Args(x)[2])
             /\ StripParen(Args(x)[2].c[1]).t = "ArrayExpression"
          THEN \* arguments after the array are evaluated but ignored by apply: handing them to the
-              \* hook or not are both accepted
-              Either(Judge(<< <<x.c[1].c[1], FALSE>>, <<Args(x)[1].c[1], FALSE>> >>
-                           \o ApplyElems(StripParen(Args(x)[2].c[1]))),
-                     Judge(<< <<x.c[1].c[1], FALSE>>, <<Args(x)[1].c[1], FALSE>> >>
-                           \o ApplyElems(StripParen(Args(x)[2].c[1]))
-                           \o ExpectedOfArgs(SubSeq(Args(x), 3, Len(Args(x))))))
+              \* hook misreports the call (named deviation D20)
+              LET strict == Judge(<< <<x.c[1].c[1], FALSE>>, <<Args(x)[1].c[1], FALSE>> >>
+                                  \o ApplyElems(StripParen(Args(x)[2].c[1])))
+                  withExtra == Judge(<< <<x.c[1].c[1], FALSE>>, <<Args(x)[1].c[1], FALSE>> >>
+                                     \o ApplyElems(StripParen(Args(x)[2].c[1]))
+                                     \o ExpectedOfArgs(SubSeq(Args(x), 3, Len(Args(x)))))
+              IN IF strict = "" \/ Len(Args(x)) = 2 THEN strict
+                 ELSE IF withExtra = "" THEN "dev:D20-apply-extra-arguments-handed-to-hook"
+                 ELSE strict
          ELSE IF Len(Args(x)) = 2 /\ IsSpreadArg(Args(x)[1]) /\ ~IsSpreadArg(Args(x)[2])
                  /\ StripParen(Args(x)[2].c[1]).t = "ArrayExpression"
          THEN \* M.apply(...s, [e...]): which value is the receiver and which the argument list is
